@@ -3,6 +3,7 @@ from .. import gen, rm, points
 from ..rm import q, r, F1, F2, h32
 
 ID = 'C08'
+PERTURB = (40, 300)      # cases re-run in the repeat / parallel perturbation passes (quick, thorough): decoders and square roots are cheap
 RULE = ('each event is one byte string given to one of the six G1/G2 decoders or to Fq2::from_slice, run in BOTH the release and the '
         'dev (debug-assertions, overflow-checks) executor; the model accepts iff exact length, valid prefix, every 32-byte coordinate '
         '< q, point on the curve (compressed: right-hand side a square, root chosen by the parity bit) and for G2 [r]P = O by model '
